@@ -427,6 +427,15 @@ func (g *gen) ethCreate(name string, more int) *clientRec {
 	ck := g.n.App.XIBCKeeper.ClientKeeper
 	c := &clientRec{Name: name, Type: exported.ETH, Rev: g.rev()}
 	c.Anchor = g.patt(maxI64)
+	if g.rng.Intn(5) == 0 {
+		// anchored at block 0 of its chain
+		c.Anchor = 0
+		if g.rng.Intn(2) == 0 {
+			c.Rev = 0
+			g.in.feat("eth-client-anchored-at-height-0-0")
+		}
+		g.in.feat("eth-client-anchored-at-block-0")
+	}
 	cs, cons := g.ethStates(g.ethHeader(c.Rev, c.Anchor))
 	if !g.try("create/eth", func(ctx sdk.Context) error {
 		if err := cs.Validate(); err != nil {
